@@ -418,4 +418,31 @@ def staleRequestKeepsLeader : List Step → Nat → Option Nat
       | none => false
     if bad then some k else staleRequestKeepsLeader rest (k + 1)
 
+/-- the configuration in force at index `idx` of the committed history: the last configuration entry
+    at or below it -/
+def cfgAtHist (H : List Entry) (idx : Nat) : Option (Nat × CF.Config) :=
+  ((H.filter (fun e => e.kind == 5 && e.index ≤ idx)).getLast?).map (fun e => (e.index, e.cfg))
+
+/-- C11/C10/C02: a snapshot the server writes itself (`takeSnapshot`) is a snapshot of the committed
+    history: it ends inside it, holds exactly the commands up to its index, and carries the
+    configuration in force there -/
+def snapshotTruth (H : List Entry) : List Step → List Nat → Nat → Option (Nat × String)
+  | [], _, _ => none
+  | _, [], _ => none
+  | s :: rest, hl :: hls, k =>
+    let isSnap := match s.ev with | .snapshot _ _ => true | _ => false
+    let fresh := s.post.dur.snaps.filter (fun x => !(s.pre.dur.snaps.any (fun y => y.idx == x.idx && y.term == x.term)))
+    let bad : Option String :=
+      if !isSnap || s.post.dead then none else
+      fresh.findSome? (fun x =>
+        if x.idx > hl then some "snapshot-beyond-the-committed-history"
+        else if (getLog H x.idx).map (·.term) != some x.term then some "snapshot-term-is-not-the-committed-entry's"
+        else if x.data != cmdsUpTo H x.idx then some "snapshot-content-is-not-the-committed-history"
+        else match cfgAtHist H x.idx with
+          | some (ci, c) => if x.cfg != c || x.cfgIdx != ci then some "snapshot-configuration-is-not-the-one-in-force-at-its-index" else none
+          | none => none)
+    match bad with
+    | some m => some (k, m)
+    | none => snapshotTruth H rest hls (k + 1)
+
 end SV
